@@ -133,6 +133,13 @@ def run_case(case, ctx):
         S3c, T3c = np.hstack([farr(S), np.full((len(S), 1), 4.5)]), np.hstack([farr(T), np.full((len(T), 1), 4.5)])
         vx, _ = call_warn(ctx, persim.wasserstein, S3c, T3c)
         check_value(ctx, "value-extra-columns", vx, ref, 1.0, "Mx3 arrays with a constant annotation column", S, T)
+    if bool(S) != bool(T):
+        # an Mx3 diagram against the empty diagram (given as a (0,3) array, a (0,2) array or an empty list)
+        X3 = np.hstack([farr(S or T), np.full((len(S or T), 1), 4.5)])
+        for what, E in (("(0,3) array", np.zeros((0, 3))), ("(0,2) array", np.zeros((0, 2))), ("empty list", [])):
+            a1, a2 = (X3, E) if S else (E, X3)
+            vx, _ = call_warn(ctx, persim.wasserstein, a1, a2)
+            check_value(ctx, "value-extra-columns", vx, ref, 1.0, "Mx3 array against the empty diagram as %s" % what, S, T)
     if not S or not T:
         ve, _ = call_warn(ctx, persim.wasserstein, np.array(S, dtype=float), np.array(T, dtype=float))
         check_value(ctx, "value-container", ve, ref, 1.0, "np.array([]) for the empty diagram", S, T)
